@@ -6,14 +6,14 @@ shapes, boolean type.  Inputs are well-typed ASTs (`wt`, what the parser produce
 makes the constructor calls inside provably accepted (no TypeError: part of C14)."""
 from hpl.ast.expressions import (HplExpression, HplUnaryOperator, HplBinaryOperator, HplQuantifier, HplLiteral,
                                  QuantifierType)
-from pyvc.contracts import contract, invariant, lemma, spec, aux, tag, unfold
+from pyvc.contracts import contract, invariant, lemma, spec, aux, tag, unfold, raw_field
 from specs.typing import wt, BOOL, NONE
 from specs.sem import ev, equiv, conj, forall_env, dom, bind, atom
 from specs.tree import mentions, binds, wf_q
 import contracts.typing_c03  # noqa: F401  (constructor contracts used at the call sites)
 import contracts.queries_c15  # noqa: F401  (contains_reference)
 import contracts.sem_lemmas  # noqa: F401
-from contracts.sem_lemmas import is_empty_test, empty_test_sem
+from contracts.sem_lemmas import is_empty_test, empty_test_sem, conj_last_all
 from specs.typing import COMPOUND
 
 
@@ -191,3 +191,163 @@ class split_and_quantifier:
     @aux
     def ensures_valid(quant, result):
         return valid_in(result)
+
+
+# ------------------------------------------------------------------------------------------------ list facts
+
+def _patvo(e):
+    return (wt(e), raw_field(e, 'HplBinaryOperator', 'operand1'))
+
+
+@lemma(auto=('wt',), patterns=_patvo)
+def valid_conj_operands(e: 'Expr') -> 'Bool':
+    """both sides of a valid conjunction are valid (one unfolding of wt / wf_q, done once here)"""
+    return (not (is_conj(e) and valid_in(e))) or (valid_in(e.operand1) and valid_in(e.operand2))
+
+
+@spec(inline=True)
+def ok_out(c: 'Expr') -> 'Bool':
+    return indivisible(c) and c.data_type == BOOL
+
+
+def _patv(s, c):
+    return all(valid_in(x) for x in s + (c,))
+
+
+@lemma(induction_on='s', auto=('wt',), patterns=_patv)
+def valid_snoc(s: 'Seq[Expr]', c: 'Expr') -> 'Bool':
+    return all(valid_in(x) for x in s + (c,)) == (all(valid_in(x) for x in s) and valid_in(c))
+
+
+def _patva(s, t):
+    return all(valid_in(x) for x in s + t)
+
+
+@lemma(induction_on='s', auto=('wt',), patterns=_patva)
+def valid_append(s: 'Seq[Expr]', t: 'Seq[Expr]') -> 'Bool':
+    return all(valid_in(x) for x in s + t) == (all(valid_in(x) for x in s) and all(valid_in(x) for x in t))
+
+
+def _patvu(u):
+    return all(valid_in(x) for x in u)
+
+
+@lemma(auto=('wt',), patterns=_patvu)
+def valid_unit(u: 'Seq[Expr]') -> 'Bool':
+    return len(u) != 1 or all(valid_in(x) for x in u) == valid_in(u[0])
+
+
+def _valid_last_hint(s):
+    if len(s) > 0:
+        valid_snoc(s[:-1], s[-1])
+
+
+@lemma(hint=_valid_last_hint)
+def valid_last(s: 'Seq[Expr]') -> 'Bool':
+    return len(s) == 0 or (all(valid_in(x) for x in s) == (all(valid_in(x) for x in s[:-1]) and valid_in(s[-1])))
+
+
+def _pato(s, c):
+    return all(ok_out(x) for x in s + (c,))
+
+
+@lemma(induction_on='s', auto=('wt',), patterns=_pato)
+def out_snoc(s: 'Seq[Expr]', c: 'Expr') -> 'Bool':
+    return all(ok_out(x) for x in s + (c,)) == (all(ok_out(x) for x in s) and ok_out(c))
+
+
+def _patoa(s, t):
+    return all(ok_out(x) for x in s + t)
+
+
+@lemma(induction_on='s', auto=('wt',), patterns=_patoa)
+def out_append(s: 'Seq[Expr]', t: 'Seq[Expr]') -> 'Bool':
+    return all(ok_out(x) for x in s + t) == (all(ok_out(x) for x in s) and all(ok_out(x) for x in t))
+
+
+def _patou(u):
+    return all(ok_out(x) for x in u)
+
+
+@lemma(auto=('wt',), patterns=_patou)
+def out_unit(u: 'Seq[Expr]') -> 'Bool':
+    return len(u) != 1 or all(ok_out(x) for x in u) == ok_out(u[0])
+
+
+# ------------------------------------------------------------------------------------------------ the work list
+
+@contract('hpl.rewrite._split_and_expr', props=['C09'])
+class split_and_expr:
+    result = 'Seq[Expr]'
+    params = {'phi': 'Expr'}
+    raise_mode = {'ValueError': 'only_if', 'TypeError': 'only_if', 'HplSanityError': 'only_if'}
+
+    @aux
+    def requires(phi):
+        return valid_in(phi)
+
+    def raises_ValueError(phi):
+        # "it raises ValueError only when a literally false conjunct makes the input unsatisfiable"
+        return forall_env(lambda rho: not ev(phi, rho))
+
+    @tag('C14')
+    def raises_TypeError(phi):
+        return True
+
+    @tag('C14')
+    def raises_HplSanityError(phi):
+        return True
+
+    def ensures_equivalent(phi, result):
+        # "the conjunction of the expressions returned by split_and is equivalent to the input on every valuation"
+        return forall_env(lambda rho: conj(result, rho) == ev(phi, rho))
+
+    def ensures_indivisible_boolean(phi, result):
+        # "every returned expression is boolean and none of them is a conjunction, a negated disjunction, ..."
+        return all(ok_out(c) for c in result)
+
+
+def _split_inv_hint(stack):
+    # facts about the work list at the start of an iteration (before the pop)
+    conj_last_all(stack)
+    valid_last(stack)
+
+
+@invariant('hpl.rewrite._split_and_expr', loop=0, types={'conditions': 'Seq[Expr]', 'stack': 'Seq[Expr]'},
+           pre_hint=_split_inv_hint)
+def _split_and_expr_inv(phi, conditions, stack):
+    return forall_env(lambda rho: (conj(conditions, rho) and conj(stack, rho)) == ev(phi, rho)) \
+        and all(ok_out(c) for c in conditions) and all(valid_in(s) for s in stack)
+
+
+# ------------------------------------------------------------------------------------------------ public entry point
+
+@contract('hpl.rewrite.split_and', props=['C09'])
+class split_and_c:
+    """the expression form of the public function (a predicate argument is unwrapped to its condition first: that
+    one-line dispatch is exercised by the bounded tier)"""
+    result = 'Seq[Expr]'
+    params = {'predicate_or_expression': 'Expr'}
+    raise_mode = {'ValueError': 'only_if', 'TypeError': 'only_if', 'HplSanityError': 'only_if'}
+
+    @aux
+    def requires(predicate_or_expression):
+        return valid_in(predicate_or_expression)
+
+    def raises_ValueError(predicate_or_expression):
+        # "it raises ValueError only when a literally false conjunct makes the input unsatisfiable"
+        return forall_env(lambda rho: not ev(predicate_or_expression, rho))
+
+    @tag('C14')
+    def raises_TypeError(predicate_or_expression):
+        return True
+
+    @tag('C14')
+    def raises_HplSanityError(predicate_or_expression):
+        return True
+
+    def ensures_equivalent(predicate_or_expression, result):
+        return forall_env(lambda rho: conj(result, rho) == ev(predicate_or_expression, rho))
+
+    def ensures_indivisible_boolean(predicate_or_expression, result):
+        return all(ok_out(c) for c in result)
